@@ -15,7 +15,7 @@ GROUPS.append(G("lst_MakeList", "harness/C19/h_asmlist.c", "h_MakeList", enforce
                 bounded="lines of 0..12 code bytes; every (granularity, listing granularity) pair set up by the code generators; column widths of any radix"))
 TRUSTED_BASE = ["GetFileNum / AddAddressRange logging stubs", "stubs of h_as_writecode.c"]
 ASSUMPTIONS = []
-NOT_COVERED = ["MakeList (listing address column and word dump)", "PrintSymbolList / PrintDebSymbols / CodeSHARED (symbol values in listing, MAP and share file)", "BookKeeping (asmsub.c) argument passing", "Atmel/NoICE debug formats"]
+NOT_COVERED = ["MakeList for lines of more than 12 bytes (bounded) and of more than 65535 bytes (16-bit EffLen)", "PrintSymbolList / PrintDebSymbols / CodeSHARED (symbol values in listing, MAP and share file)", "BookKeeping (asmsub.c) argument passing", "Atmel/NoICE debug formats"]
 EXPLANATION = ("Kernel only: WriteCode hands the line's segment, start address and length to the bookkeeping before the counter advances, and AddLineInfo "
                "stores exactly one (segment, file, line, address) record per line without losing earlier ones. The listing columns and the symbol "
                "sections of listing/MAP/share file are not under contract.")
@@ -23,6 +23,6 @@ MANIFEST = dict(
     category="other",
     text="Contracts on the kernel: WriteCode (bookkeeping sees segment/address/length of the line before the program counter moves, same address the "
          "code-file writer sees) and AddLineInfo (exactly one MAP record with the line's segment, file, line and address; earlier records kept), BookKeeping (usage map, section usage and debug records all get the LOAD address of the line) and GenerateProcessor (macro / repetition levels start from the calling line). "
-         "The listing's address/byte columns (MakeList) and the symbol tables of listing, MAP and share file are named unverified.",
+         "MakeList (bounded: lines of <= 12 bytes): every listing line shows the address of the first code unit printed on it and the line's code is shown completely, in order, each unit once, for every (granularity, listing granularity) pair and every column width. The symbol tables of listing, MAP and share file are named unverified.",
     note="Bounded: debug list <= 2 earlier records. Trusted: logging stubs.",
 )
